@@ -27,7 +27,7 @@ OUT = os.path.join(ROOT, 'out')
 SCRATCH = os.environ.get('VERIF_KANI_SCRATCH', '/var/tmp/verif-kani-%d' % os.getuid())
 TARGET = os.path.join(OUT, 'kani-target')
 RTARGET = os.path.join(OUT, 'kani-replay-target')
-TIMEOUT = int(os.environ.get('VERIF_KANI_TIMEOUT', '900'))
+TIMEOUT = int(os.environ.get('VERIF_KANI_TIMEOUT', '420'))
 
 SHIM = r'''
     #[cfg(not(kani))]
@@ -122,6 +122,9 @@ SHIM = r'''
             assert!(runs > rejected || only.is_some(), "vacuous harness: every execution was rejected by an assumption");
         }
     }
+    /// thorough tier: the enumeration harnesses use their larger bound
+    #[allow(dead_code)]
+    fn deep() -> bool { std::env::var("VERIF_THOROUGH").is_ok() }
     /// a value in 0..n (symbolic under Kani, enumerated natively)
     #[allow(dead_code)]
     fn pick(n: usize) -> usize {
@@ -220,6 +223,7 @@ def source_key():
 
 _KV = None
 LOST = {}
+TIER = 'quick'
 
 
 def kani_version():
@@ -266,6 +270,10 @@ def prepare_scratch(only_units=None):
 
 def cleanup_scratch():
     shutil.rmtree(SCRATCH, ignore_errors=True)
+    # trees the enumeration harnesses made for themselves
+    import glob, tempfile
+    for d in glob.glob(os.path.join(tempfile.gettempdir(), 'verif-enum-*')):
+        shutil.rmtree(d, ignore_errors=True)
 
 
 def _env():
@@ -285,8 +293,14 @@ def run_kani(dst, hs, playback=False, jobs=8):
     elif len(hs) > 1:
         cmd += ['-j', str(jobs), '--output-format', 'terse']
     t0 = time.time()
+
+    def _limit():
+        # CBMC on String/Vec-heavy changed code has been seen to take > 60 GB: cap each process (a capped run is "no verdict")
+        import resource
+        cap = int(os.environ.get('VERIF_KANI_MEM_GB', '20')) << 30
+        resource.setrlimit(resource.RLIMIT_AS, (cap, cap))
     try:
-        p = subprocess.run(cmd, cwd=dst, env=_env(), capture_output=True, text=True, timeout=TIMEOUT)
+        p = subprocess.run(cmd, cwd=dst, env=_env(), capture_output=True, text=True, timeout=TIMEOUT, preexec_fn=_limit)
         out = p.stdout + '\n' + p.stderr
         rc = p.returncode
     except subprocess.TimeoutExpired as e:
@@ -303,6 +317,9 @@ def run_enum(dst, hs, path=None):
     env['RUSTFLAGS'] = '--cfg verif_replay'
     env.pop('VERIF_REPLAY', None)
     env.pop('VERIF_ENUM_PATH', None)
+    env.pop('VERIF_THOROUGH', None)
+    if TIER == 'thorough':
+        env['VERIF_THOROUGH'] = '1'
     if path is not None:
         env['VERIF_ENUM_PATH'] = ','.join(str(c) for c in path)
     cmd = ['cargo', 'test', '--offline', '--lib', '--', '--exact'] + [h['full'] for h in hs] + ['--nocapture']
@@ -418,7 +435,9 @@ def run_harnesses(hs, tier='quick', need_replay=True):
         return []
     os.makedirs(os.path.join(OUT, 'cache'), exist_ok=True)
     key = source_key()
-    cfile = os.path.join(OUT, 'cache', 'kani-%s.json' % key)
+    cfile = os.path.join(OUT, 'cache', 'kani-%s-%s.json' % (key, tier))
+    global TIER
+    TIER = tier
     cache = {}
     if os.path.exists(cfile) and not os.environ.get('VERIF_NOCACHE'):
         try:
@@ -438,9 +457,8 @@ def run_harnesses(hs, tier='quick', need_replay=True):
                     cache = {}
                 todo = [h for h in hs if h['full'] not in cache]
             if todo:
-                have = set(h['full'] for h in todo)
-                todo = todo + [h for h in harnesses_for(None) if h['full'] not in have and h['full'] not in cache
-                               and (tier == 'thorough' or h.get('tier', 'quick') == 'quick')]
+                # only the harnesses this property (and the ones it builds on) needs are run; all modules are still appended, so the
+                # crate is compiled the same way whatever property asks and cargo's incremental build is shared
                 def attempt(group, only_units):
                     dst = prepare_scratch(only_units)
                     runnable = [h for h in group if h['unit'] not in LOST and h['kind'] != 'enum']
@@ -453,9 +471,27 @@ def run_harnesses(hs, tier='quick', need_replay=True):
                     ecmd = ''
                     if enumerable:
                         erc, eout, edt, ecmd, eres = run_enum(dst, enumerable)
-                        res.update(eres)
-                        if 'error: could not compile' in eout or re.search(r'^error(\[E\d+\])?:', eout, re.M):
-                            out += '\n' + eout
+                        ecompile = 'error: could not compile' in eout or re.search(r'^error\[E\d+\]:', eout, re.M) is not None
+                        eunits = sorted(set(h['unit'] for h in enumerable))
+                        if ecompile and len(eunits) > 1:
+                            # one harness module does not fit the changed code: build the others without it
+                            for u in eunits:
+                                dst_u = prepare_scratch([u])
+                                hs_u = [h for h in enumerable if h['unit'] == u]
+                                erc, eout_u, edt_u, ecmd, eres_u = run_enum(dst_u, hs_u)
+                                res.update(eres_u)
+                                edt += edt_u
+                                if 'error: could not compile' in eout_u or re.search(r'^error\[E\d+\]:', eout_u, re.M):
+                                    for h in hs_u:
+                                        res[h['full']] = {'status': None, 'failed_checks': [], 'time': None,
+                                                          'why': 'harness does not compile against the current tree (code outside the harness subset): ' + ' | '.join([l for l in eout_u.splitlines() if l.startswith('error')][:4])[:500]}
+                            dst = prepare_scratch(only_units)
+                        else:
+                            res.update(eres)
+                            if ecompile:
+                                for h in enumerable:
+                                    res[h['full']] = {'status': None, 'failed_checks': [], 'time': None,
+                                                      'why': 'harness does not compile against the current tree (code outside the harness subset): ' + ' | '.join([l for l in eout.splitlines() if l.startswith('error')][:4])[:500]}
                         dt += edt
                     compile_err = ('error: could not compile' in out or re.search(r'^error(\[E\d+\])?:', out, re.M) is not None) and not any(v.get('status') for v in res.values())
                     if compile_err and only_units is None and len(set(h['unit'] for h in group)) > 1:
@@ -465,11 +501,16 @@ def run_harnesses(hs, tier='quick', need_replay=True):
                         return
                     for h in group:
                         r = res.get(h['full'])
-                        entry = {'harness': h['full'], 'kind': h['kind'], 'bound': h.get('bound', ''), 'label': h.get('label', ''),
+                        entry = {'harness': h['full'], 'kind': h['kind'], 'bound': (h.get('thorough_bound') if TIER == 'thorough' and h.get('thorough_bound') else h.get('bound', '')), 'label': h.get('label', ''),
                                  'unit': h['unit'], 'cmd': (ecmd if h['kind'] == 'enum' else cmd), 'wall': round(dt, 1), 'cached': False}
                         if h['unit'] in LOST:
                             entry['status'] = 'undecided'
                             entry['reason'] = LOST[h['unit']]
+                            cache[h['full']] = entry
+                            continue
+                        if r is not None and r.get('why'):
+                            entry['status'] = 'undecided'
+                            entry['reason'] = r['why']
                             cache[h['full']] = entry
                             continue
                         if r is None or r['status'] is None:
